@@ -97,5 +97,13 @@ m("C01-block-no-final-reset", "C01", "image/block.py", "        buf_write(SGR_DE
 m("C01-block-n-not-reset", "C01", "image/block.py", "                        a_cluster2 = a2\n                    n = 0\n", "                        a_cluster2 = a2\n")
 m("C01-block-kitty-r-overflow", "C01", "image/block.py", "                    r += r < 255 or -1", "                    r += 1")
 m("C01-sgr-template-broken", "C01", "_ctlseqs.py", 'SGR_FG_DIRECT = SGR % f"38;2;{Pm(3)}"', 'SGR_FG_DIRECT = SGR % f"38;2;{Pm(3)}" + CSI')
-m("C01-sgr-template-4params", "C01", "_ctlseqs.py", 'SGR_BG_DIRECT = SGR % f"48;2;{Pm(3)}"', 'SGR_BG_DIRECT = SGR % f"48;2;{Pm(2)};0{Ps}"')
+m("C01-sgr-template-4params", "C01", "_ctlseqs.py", 'SGR_BG_DIRECT = SGR % f"48;2;{Pm(3)}"', 'SGR_BG_DIRECT = SGR % f"48;2;{Pm(2)}"')
 m("C01-block-equiv-dead-store", "C01", "image/block.py", "            row_no += 2\n            n = 0\n", "            row_no += 2\n            n = 1\n            n = 0\n", expect="held")
+# ---- C02 block pixels
+m("C02-lower-from-upper", "C02", "image/block.py", "                    cluster1 = px1\n                    cluster2 = px2", "                    cluster1 = px1\n                    cluster2 = px1")
+m("C02-kitty-adjusts-fg", "C02", "image/block.py", "                    buf_write(SGR_FG_DIRECT % cluster1)\n                    buf_write(upper_pixel * n)\n\n        buffer", "                    buf_write(SGR_FG_DIRECT % (r, g, b))\n                    buf_write(upper_pixel * n)\n\n        buffer")
+m("C02-alpha-transition-dropped", "C02", "image/block.py", "                        or 0 == a_cluster1 != a1\n", "")
+m("C02-up-transparent-uses-upper-glyph", "C02", "image/block.py", "                    buf_write(SGR_FG_DIRECT % cluster2)\n                    buf_write(lower_pixel * n)", "                    buf_write(SGR_FG_DIRECT % cluster2)\n                    buf_write(upper_pixel * n)")
+m("C02-second-row-offset", "C02", "image/block.py", "zip(rgb[x : x + width], rgb[x + width : x + width * 2]),", "zip(rgb[x : x + width], rgb[x + width + 1 : x + width * 2 + 1]),")
+m("C02-px2-ignored", "C02", "image/block.py", "                    or px2 != cluster2\n", "")
+m("C02-glyph-constants-swapped", "C02", "image/block.py", 'LOWER_PIXEL = "\\u2584"', 'LOWER_PIXEL = "\\u2580"')
